@@ -495,6 +495,134 @@ func main() {
 			}
 		}
 	}
+	// ---- the drawing objects themselves (NewDXF / NewSVG): histories of their methods
+	type dop struct {
+		name  string
+		do    func(d *render.DXF)
+		lines []*sdf.Line2
+		circ  int
+	}
+	tri2 := sdf.Triangle2{{X: 0, Y: 0}, {X: 3, Y: 0}, {X: 1, Y: 2}}
+	box2 := sdf.Box2{Min: v2.Vec{X: -1, Y: -2}, Max: v2.Vec{X: 4, Y: 5}}
+	dops := []dop{
+		{"Line", func(d *render.DXF) { d.Line(L(0, 0, 1, 0)) }, []*sdf.Line2{L(0, 0, 1, 0)}, 0},
+		{"Lines", func(d *render.DXF) { d.Lines([]*sdf.Line2{L(1, 0, 1, 1), L(10, 20, 11, 21)}) }, []*sdf.Line2{L(1, 0, 1, 1), L(10, 20, 11, 21)}, 0},
+		{"Points", func(d *render.DXF) { d.Points(v2.VecSet{{X: 1, Y: 1}, {X: 2, Y: 3}}, 0.25) }, nil, 2},
+		{"Triangle", func(d *render.DXF) { d.Triangle(tri2) }, []*sdf.Line2{L(0, 0, 3, 0), L(3, 0, 1, 2), L(1, 2, 0, 0)}, 0},
+		{"Box", func(d *render.DXF) { b := box2; d.Box(&b) }, []*sdf.Line2{L(-1, -2, 4, -2), L(4, -2, 4, 5), L(4, 5, -1, 5), L(-1, 5, -1, -2)}, 0},
+	}
+	opSeqs := lists([]int{0, 1, 2, 3, 4}, vlib.Pick(c, 3, 4))
+	states += c.ParFor(len(opSeqs), func(i int) {
+		seq := opSeqs[i]
+		var names []string
+		var want []*sdf.Line2
+		circ := 0
+		dp := filepath.Join(work, fmt.Sprintf("o.%d.dxf", i))
+		defer os.Remove(dp)
+		dxfMu.Lock()
+		d := render.NewDXF(dp)
+		for _, o := range seq {
+			dops[o].do(d)
+			names = append(names, dops[o].name)
+			want = append(want, dops[o].lines...)
+			circ += dops[o].circ
+		}
+		err := d.Save()
+		var back interface{ Entities() entity.Entities }
+		if err == nil {
+			back, err = dxf.FromFile(dp)
+		}
+		dxfMu.Unlock()
+		desc := map[string]any{"api": "render.NewDXF object", "calls": names}
+		if err != nil {
+			c.Violation("dxf-object|unreadable", fmt.Sprintf("NewDXF; %v; Save: %v", names, err), desc)
+			return
+		}
+		k, nc := 0, 0
+		for _, e := range back.Entities() {
+			switch g := e.(type) {
+			case *entity.Line:
+				if k >= len(want) {
+					k++
+					continue
+				}
+				if g.Layer() == nil || g.Layer().Name() != "Lines" {
+					c.Violation("dxf-object|layer", fmt.Sprintf("NewDXF; %v; Save: LINE %d is not on layer Lines", names, k), desc)
+					return
+				}
+				l := want[k]
+				w := []float64{l[0].X, l[0].Y, 0, l[1].X, l[1].Y, 0}
+				gg := append(append([]float64{}, g.Start...), g.End...)
+				for a := range w {
+					if a >= len(gg) || math.Abs(gg[a]-w[a]) > 5.0000001e-7 {
+						c.Violation("dxf-object|coordinates-or-order", fmt.Sprintf("NewDXF; %v; Save: LINE %d is %v-%v, segment %v", names, k, g.Start, g.End, *l), desc)
+						return
+					}
+				}
+				k++
+				atomic.AddInt64(&trans, 1)
+			case *entity.Circle:
+				nc++
+				if g.Layer() == nil || g.Layer().Name() != "Points" {
+					c.Violation("dxf-object|layer", fmt.Sprintf("NewDXF; %v; Save: a point marker is not on layer Points", names), desc)
+					return
+				}
+			default:
+				c.Violation("dxf-object|foreign-entity", fmt.Sprintf("entity %T in the file", e), desc)
+			}
+		}
+		if k != len(want) || nc != circ {
+			c.Violation("dxf-object|entity-count", fmt.Sprintf("NewDXF; %v; Save: %d LINEs and %d circles in the file, %d and %d added", names, k, nc, len(want), circ), desc)
+		}
+	})
+	// SVG object: Save twice, and Line / Save / Line / Save, against a fresh object given the same segments
+	var svgLists [][]*sdf.Line2
+	for _, ls := range l2 {
+		if len(ls) >= 1 && len(ls) <= 3 {
+			svgLists = append(svgLists, ls)
+		}
+	}
+	const style = "fill:none;stroke:black;stroke-width:0.1"
+	states += c.ParFor(len(svgLists), func(i int) {
+		ls := svgLists[i]
+		base := filepath.Join(work, fmt.Sprintf("o.%d", i))
+		defer os.Remove(base + ".ref.svg")
+		defer os.Remove(base + ".svg")
+		desc := map[string]any{"api": "render.NewSVG object", "segments": ls}
+		if err := render.SaveSVG(base+".ref.svg", style, ls); err != nil {
+			c.Violation("svg-object|SaveSVG-error", err.Error(), desc)
+			return
+		}
+		ref, _ := os.ReadFile(base + ".ref.svg")
+		for cut := 0; cut <= len(ls); cut++ {
+			o := render.NewSVG(base+".svg", style)
+			for _, l := range ls[:cut] {
+				o.Line(l[0], l[1])
+			}
+			e1 := o.Save()
+			first, _ := os.ReadFile(base + ".svg")
+			for _, l := range ls[cut:] {
+				o.Line(l[0], l[1])
+			}
+			e2 := o.Save()
+			second, _ := os.ReadFile(base + ".svg")
+			atomic.AddInt64(&trans, 1)
+			if e1 != nil || e2 != nil {
+				c.Violation("svg-object|Save-error", fmt.Sprint(e1, e2), desc)
+				return
+			}
+			if string(second) != string(ref) {
+				what := fmt.Sprintf("%d segments, Save, %d more segments, Save", cut, len(ls)-cut)
+				if cut == len(ls) {
+					what = "all segments, Save, Save"
+					_ = first
+				}
+				c.Violation("svg-object|file-depends-on-earlier-Save", fmt.Sprintf("NewSVG; %s: the file differs from the one a fresh object writes for the same segments", what), desc)
+				return
+			}
+		}
+	})
+	samples = append(samples, map[string]any{"format": "dxf object api", "call_sequences": len(opSeqs), "calls": []string{"Line", "Lines", "Points", "Triangle", "Box"}}, map[string]any{"format": "svg object api", "lists": len(svgLists), "histories": "k segments, Save, the rest, Save (every k); compared with a fresh object"})
 	samples = append(samples, map[string]any{"format": "dxf+svg", "lists": len(l2), "writers": "streaming and batch", "menu": menu2})
 	_ = r2
 	c.Guard("decoded vertices / lines compared > 5000 (files were written and read back by the independent readers)", trans > 5000, fmt.Sprint(trans))
